@@ -7,6 +7,9 @@ are the ones audited by harness/props/c04.py.
 import PydlVerif.Lemmas.SphereComb
 import PydlVerif.Lemmas.SphereIndex
 import PydlVerif.Lemmas.SphereReal
+import PydlVerif.Lemmas.SphereComplete
+import PydlVerif.Lemmas.SphereInit
+import PydlVerif.Lemmas.SphereRoom
 namespace PydlVerif.C04
 open PydlVerif PydlVerif.Sphere
 
@@ -199,29 +202,53 @@ end field
 section real
 open Real
 
-/-- the corrected RA margin of getbounds (fix D5), over ℝ, degrees as in the code: let p be a
-point of a band whose extreme-declination cosine is `c` (so c ≤ cos δp) and q a point at
-declination δq; if their separation d is below the margin m, then - by the haversine
-inequality cos δp cos δq sin²(Δ/2) ≤ sin²(d/2), which is the hypothesis `hav` - their RA
-difference Δ is below `raMarginOf c δq m`, the bound the RA loops now use -/
-theorem ra_cover_fixed (c δq δp m Δ d : ℝ) (hc : 0 < c) (hcp : c ≤ cos (δp * (π / 180)))
+/-- the corrected RA margin of getbounds (fix D5) from the haversine inequality AS A HYPOTHESIS
+(`hav`): the statement `ra_cover_fixed` had before the inequality was proved -/
+theorem ra_cover_fixed_of_hav (c δq δp m Δ d : ℝ) (hc : 0 < c) (hcp : c ≤ cos (δp * (π / 180)))
     (hcq : 0 < cos (δq * (π / 180))) (hΔ0 : 0 ≤ Δ) (hΔ : Δ ≤ 180) (hd0 : 0 ≤ d) (hdm : d < m)
     (hm : m ≤ 180)
     (hav : cos (δp * (π / 180)) * cos (δq * (π / 180)) * sin (Δ / 2 * (π / 180)) ^ 2
             ≤ sin (d / 2 * (π / 180)) ^ 2) :
-    Δ < @raMarginOf ℝ realTrig c δq m := by
-  have hpi := Real.pi_pos
-  rw [raMarginOf_real]
-  split
-  · rename_i hs
-    have h := half_dra_lt_arcsin c (cos (δq * (π / 180))) (cos (δp * (π / 180))) (Δ / 2 * (π / 180))
-      (d / 2 * (π / 180)) (0.5 * m * (π / 180)) hc hcp hcq
-      (by positivity) (by nlinarith) (by positivity) (by nlinarith) (by nlinarith) hav hs
-    have h180 : 0 < 180 / π := by positivity
-    have h2 := mul_lt_mul_of_pos_right h h180
-    have h3 : Δ / 2 * (π / 180) * (180 / π) = Δ / 2 := by field_simp
-    linarith
-  · linarith
+    Δ < @raMarginOf ℝ realTrig c δq m :=
+  ra_cover_of_hav c δq δp m Δ d hc hcp hcq hΔ0 hΔ hd0 hdm hm hav
+
+/-- the corrected RA margin of getbounds (fix D5), over ℝ, degrees as in the code, WITHOUT the
+haversine hypothesis: p = (a1, δp) is a point of a band whose extreme-declination cosine is `c`
+(0 < c ≤ cos δp), q = (a2, δq) with cos δq > 0; if their separation as computed by the model's own
+`gcircDeg` (the haversine formula of goddard `gcirc`) is below m ≤ 180°, then every Δ in [0°, 180°]
+that has the haversine of the RA difference a2 - a1 (the difference on the circle) is below
+`raMarginOf c δq m`, the bound the RA loops use.  The former hypothesis is now the proved
+`cos_cos_hav_le` (from `sin²(d/2) = sin²(Δδ/2) + cos δp cos δq sin²(Δα/2)`, `hav_identity`). -/
+theorem ra_cover_fixed (c a1 δp a2 δq m Δ : ℝ) (hc : 0 < c) (hcp : c ≤ cos (δp * (π / 180)))
+    (hcq : 0 < cos (δq * (π / 180))) (hΔ0 : 0 ≤ Δ) (hΔ : Δ ≤ 180) (hm : m ≤ 180)
+    (hΔs : sin (Δ / 2 * (π / 180)) ^ 2 = sin ((a2 * (π / 180) - a1 * (π / 180)) / 2) ^ 2)
+    (hclose : @gcircDeg ℝ realTrig a1 δp a2 δq < m) :
+    Δ < @raMarginOf ℝ realTrig c δq m :=
+  ra_margin_covers c a1 δp a2 δq m Δ hc hcp hcq hΔ0 hΔ hm hΔs hclose
+
+/-- haversine identity for the model's `gcircDeg` at Mathlib's real functions (degrees in,
+degrees out): with d the returned separation, x, y the declinations and t the RA difference in
+radians, sin²(d/2) = sin²((y-x)/2) + cos x cos y sin²(t/2) (so the argument of arcsin is in
+[0,1]), 0 ≤ d ≤ 180, and cos d = sin x sin y + cos x cos y cos t: d IS the angle between the two
+unit vectors.  Consequences: `cos δp cos δq sin²(Δα/2) ≤ sin²(d/2)` and `|Δδ| ≤ d`. -/
+theorem hav_identity (a1 d1 a2 d2 : ℝ) :
+    sin (@gcircDeg ℝ realTrig a1 d1 a2 d2 / 2 * (π / 180)) ^ 2 =
+      sin ((d2 * (π / 180) - d1 * (π / 180)) / 2) ^ 2 +
+        cos (d1 * (π / 180)) * cos (d2 * (π / 180)) * sin ((a2 * (π / 180) - a1 * (π / 180)) / 2) ^ 2 ∧
+    (0 ≤ @gcircDeg ℝ realTrig a1 d1 a2 d2 ∧ @gcircDeg ℝ realTrig a1 d1 a2 d2 ≤ 180) ∧
+    cos (@gcircDeg ℝ realTrig a1 d1 a2 d2 * (π / 180)) =
+      sin (d1 * (π / 180)) * sin (d2 * (π / 180)) +
+        cos (d1 * (π / 180)) * cos (d2 * (π / 180)) * cos (a2 * (π / 180) - a1 * (π / 180)) ∧
+    cos (d1 * (π / 180)) * cos (d2 * (π / 180)) * sin ((a2 * (π / 180) - a1 * (π / 180)) / 2) ^ 2 ≤
+      sin (@gcircDeg ℝ realTrig a1 d1 a2 d2 / 2 * (π / 180)) ^ 2 := by
+  have hpi : π ≠ 0 := Real.pi_pos.ne'
+  refine ⟨?_, gcirc_range a1 d1 a2 d2, ?_, ?_⟩
+  · rw [gcirc_half, sin_sq_half_havAngle]; rfl
+  · rw [gcircDeg_real, ← cos_havAngle]
+    congr 1
+    generalize havAngle (d1 * (π / 180)) (d2 * (π / 180)) (a2 * (π / 180) - a1 * (π / 180)) = H
+    field_simp
+  · rw [gcirc_half]; exact cos_cos_hav_le _ _ _
 
 end real
 
@@ -246,13 +273,342 @@ theorem spherematch_complete_partial {α : Type} [LT α] [DecidableLT α] (n1 n2
     exact assignAll_mem n2 R V _ hsub k hk (cellOf i) (RACover i hi k hk hs)
       (init_inb nRa _ (hcell i hi).1 (hcell i hi).2)
 
+/-! ## the cover assembled (ℝ, Mathlib's trigonometric functions) -/
+
+section complete
+open Real
+attribute [local instance] realFns fieldScalar fieldTrig
+attribute [-instance] Scalar.instOfNat Scalar.instOfScientific
+
+/-- `chunks.get` / the floor formula against the tabulated edges (any ordered field with floor,
+stated here at ℝ; `Sphere.cellIndex_bracket`, `Sphere.get_bracket` are the general versions):
+the returned (band, cell) exists and its edges bracket the point, `b[i] ≤ x < b[i+1]`; in
+declination `≤` on the right for a point ON the last edge (the upper-boundary rule) -/
+theorem get_bracket (g : Grid ℝ) (ra dec : ℝ) (d r : Nat)
+    (hdec : EdgesOK g.decBounds g.nDec)
+    (hra : ∀ d, d < g.nDec → EdgesOK (g.raBounds.getD d #[]) (g.nRa.getD d 0))
+    (h : get g ra dec = .ok (d, r)) :
+    d < g.nDec ∧ r < g.nRa.getD d 0 ∧
+    (g.decBounds.getD d 0 ≤ dec ∧ dec ≤ g.decBounds.getD (d + 1) 0 ∧
+      (dec < g.decBounds.getD (d + 1) 0 ∨ (d + 1 = g.nDec ∧ dec = g.decBounds.getD g.nDec 0))) ∧
+    ((g.raBounds.getD d #[]).getD r 0 ≤ ra ∧ ra < (g.raBounds.getD d #[]).getD (r + 1) 0) :=
+  Sphere.get_bracket g ra dec d r hdec hra h
+
+/-- `chunks.__init__` (`Sphere.chunksInit_facts` holds over any ordered field with floor and for
+ARBITRARY cos/sin/sqrt; here at ℝ): when it returns a grid for declinations in [-90, 90], the
+grid has nDec ≥ 3 bands with nDec+1 equally spaced, strictly increasing declination edges from
+decMin (-90 by the polar rule, else at least one minSize below every point) to decMax EXACTLY
+(+90 by the polar rule, else at least one minSize above every point); raOffset is one of
+0,60,…,300; every band has positive cosDecMin, nRa ≥ 1 cells and nRa+1 equally spaced, strictly
+increasing RA edges that either run from 0 to 360 or stay more than minSize/cosDecMin inside -/
+theorem init_shape (ra dec : Array ℝ) (ms : ℝ) (g : Grid ℝ)
+    (hdec : ∀ i, i < dec.size → -90 ≤ dec.getD i 0 ∧ dec.getD i 0 ≤ 90)
+    (h : chunksInit ra dec ms = .ok g) : GridFacts ra dec ms g :=
+  chunksInit_facts ra dec ms g hdec h
+
+/-- one band including the seam (`Sphere.ra_cover_band`, any ordered field): the RA loops of
+getbounds started at q's own cell return a range one of whose indices wraps onto p's cell when
+the difference on the circle is below the margin M and either the band is [0,360] with M at most
+one cell, or the band leaves a gap ≥ M around the seam: ONE wrap cell (-1 or nRa) suffices -/
+theorem ra_cover_seam {b : Array ℝ} {n : Nat} (he : EdgesOK b n) (q p M : ℝ) (r0 jp : Nat)
+    (hr0 : r0 < n) (hjp : jp < n)
+    (hq : b.getD r0 0 ≤ q ∧ q < b.getD (r0+1) 0) (hp : b.getD jp 0 ≤ p ∧ p < b.getD (jp+1) 0)
+    (hp0 : 0 ≤ p) (hq0 : 0 ≤ q) (hp360 : p < 360) (hq360 : q < 360)
+    (hclose : |q - p| < M ∨ 360 - |q - p| < M)
+    (hseam : (b.getD 0 0 = 0 ∧ b.getD n 0 = 360 ∧ M ≤ b.getD 1 0 - b.getD 0 0) ∨
+      M ≤ b.getD 0 0 + 360 - b.getD n 0) :
+    ∃ r : Int, raDown b q M r0 ≤ r ∧ r ≤ ((raUp b q M r0 (n - r0) : Nat) : Int) ∧
+      (r % (n : Int)).toNat = jp :=
+  ra_cover_band he q p M r0 jp hr0 hjp hq hp hp0 hq0 hp360 hq360 hclose hseam
+
+/-- `RACover` for one pair, from the grid facts: on a grid built by `chunks.__init__` (facts of
+`init_shape`), if the model's separation of p = (a1, δp) and q = (a2, δq) is below m ≤ 180, p is
+looked up by `get` in cell (bp, jp), `getbounds` returned B for q and there is room at the seam in
+band bp (`SeamOK`), then (bp, jp) is among the cells `assign` visits for q.  Composes dec_cover,
+hav_identity, ra_cover_fixed, get_bracket, ra_cover_seam and ra_wrap_index. -/
+theorem racover_pair (g : Grid ℝ) (ra dec : Array ℝ) (ms : ℝ) (hF : GridFacts ra dec ms g)
+    (a1 δp a2 δq m : ℝ) (h10 : 0 ≤ a1) (h1 : a1 < 360) (h20 : 0 ≤ a2) (h2 : a2 < 360)
+    (hp : |δp| < 90) (hq : |δq| < 90) (hm : m ≤ 180)
+    (bp jp : Nat) (B : Bounds)
+    (hget : get g (fmod360 (a1 + g.raOffset)) δp = .ok (bp, jp))
+    (hB : getbounds g (fmod360 (a2 + g.raOffset)) δq m = .ok B)
+    (hclose : gcircDeg a1 δp a2 δq < m)
+    (hseam : SeamOK g bp δq m) :
+    (bp, jp) ∈ cellsOfRange g.nRa B 0 := by
+  obtain ⟨j, hj, hoff⟩ := hF.off
+  have hj' : (j : ℝ) ≤ 5 := by exact_mod_cast (by omega : j ≤ 5)
+  have hj0 : (0 : ℝ) ≤ j := Nat.cast_nonneg j
+  have hlo : -90 ≤ g.decBounds.getD 0 0 := by
+    rcases hF.dec_lo with h | h
+    · linarith
+    · linarith [h.1]
+  have hhi : g.decBounds.getD g.nDec 0 ≤ 90 := by
+    rcases hF.dec_hi with h | h
+    · linarith
+    · linarith [h.1]
+  exact pair_visited g hF.dec_edges (fun d hd => (hF.band d hd).edges) (fun d hd => (hF.band d hd).cpos)
+    hlo hhi (by rw [hoff]; positivity) (by rw [hoff]; linarith)
+    a1 δp a2 δq m h10 h1 h20 h2 hp hq hm bp jp B hget hB hclose hseam
+
+/-- END-TO-END completeness on the grid, hypotheses about the inputs plus ONE residual geometric
+condition.  `g` is the grid of `chunks.__init__(ra1, dec1, ms)` (`GridFacts`, proved by
+`init_shape`), `cl` the table of `assign(ra2, dec2, ml)`, `cellOf i` the cell `get` returns for
+first-list point i.  Inputs: RA in [0,360), |Dec| < 90, ml ≤ 180.  Residual (`hroom`): every
+second-list point that has a close partner lies, in every band d it visits, inside the RA extent
+of the band, and the RA margin it uses there leaves room at the seam (`BandRoom`: margin ≤ one
+cell when the band is [0,360], margin ≤ the gap around the seam otherwise).  Then the raw match
+list is a permutation of the list of ALL pairs closer than ml. -/
+theorem spherematch_complete_grid (g : Grid ℝ) (ra1 dec1 ra2 dec2 : Array ℝ) (ms ml : ℝ)
+    (cl : Tab CellSt) (cellOf : Nat → Nat × Nat)
+    (hF : GridFacts ra1 dec1 ms g) (hsz : ra1.size = dec1.size)
+    (hcl : assign g ra2 dec2 ml = .ok cl)
+    (hcells : ∀ i, i < ra1.size →
+      get g (fmod360 (ra1.getD i 0 + g.raOffset)) (dec1.getD i 0) = .ok (cellOf i))
+    (hra1 : ∀ i, i < ra1.size → 0 ≤ ra1.getD i 0 ∧ ra1.getD i 0 < 360)
+    (hdec1 : ∀ i, i < ra1.size → |dec1.getD i 0| < 90)
+    (hra2 : ∀ k, k < ra2.size → 0 ≤ ra2.getD k 0 ∧ ra2.getD k 0 < 360)
+    (hdec2 : ∀ k, k < ra2.size → |dec2.getD k 0| < 90)
+    (hml : ml ≤ 180)
+    (hroom : ∀ k, k < ra2.size →
+      (∃ i, i < ra1.size ∧
+        gcircDeg (ra1.getD i 0) (dec1.getD i 0) (ra2.getD k 0) (dec2.getD k 0) < ml) →
+      ∀ d, d < g.nDec → visitedBand g (dec2.getD k 0) ml d →
+        BandRoom g d (fmod360 (ra2.getD k 0 + g.raOffset)) (dec2.getD k 0) ml) :
+    (matchRaw ra1.size cellOf (fun c => (cl.get c).1)
+      (fun i k => gcircDeg (ra1.getD i 0) (dec1.getD i 0) (ra2.getD k 0) (dec2.getD k 0)) ml).Perm
+    (closePairs ra1.size ra2.size
+      (fun i k => gcircDeg (ra1.getD i 0) (dec1.getD i 0) (ra2.getD k 0) (dec2.getD k 0)) ml) := by
+  have hedges : ∀ d, d < g.nDec → EdgesOK (g.raBounds.getD d #[]) (g.nRa.getD d 0) :=
+    fun d hd => (hF.band d hd).edges
+  -- `assign` returned: ml < minSize and cl is the table of the loop over points
+  unfold assign at hcl
+  split at hcl
+  · cases hcl
+  · rename_i hlt
+    rw [not_not, hF.minSize_eq] at hlt
+    simp only [pure, Except.pure, Except.ok.injEq] at hcl
+    subst hcl
+    apply spherematch_complete_partial
+    · intro k _ c hc
+      unfold cellsOfPoint at hc ⊢
+      simp only [scalar_zero] at hc ⊢
+      cases hb : getbounds g (fmod360 (ra2.getD k 0 + g.raOffset)) (dec2.getD k 0) ml with
+      | error e => rw [hb] at hc; simp at hc
+      | ok b => rw [hb] at hc; exact cellsOfRange_subset _ _ _ hc
+    · intro i hi
+      obtain ⟨h1, h2, _, _⟩ := Sphere.get_bracket g _ _ (cellOf i).1 (cellOf i).2 hF.dec_edges hedges (hcells i hi)
+      rw [hF.nRa_size]; exact ⟨h1, h2⟩
+    · intro i hi k hk hclose
+      -- the declinations are closer than ml < ms
+      have hdd : |dec2.getD k 0 - dec1.getD i 0| < ml :=
+        lt_of_le_of_lt (ddec_le_gcirc _ _ _ _ (hdec1 i hi) (hdec2 k hk)) hclose
+      have hdd' := abs_lt.1 hdd
+      have hq := abs_lt.1 (hdec2 k hk)
+      -- so q lies inside the declination extent of the grid
+      have hin : g.decBounds.getD 0 0 ≤ dec2.getD k 0 ∧ dec2.getD k 0 < g.decBounds.getD g.nDec 0 := by
+        constructor
+        · rcases hF.dec_lo with h | h
+          · linarith
+          · have := h.2 i (by omega); linarith
+        · rcases hF.dec_hi with h | h
+          · linarith
+          · have := h.2 i (by omega); linarith
+      have hR := hroom k hk ⟨i, hi, hclose⟩
+      obtain ⟨B, hB⟩ := getbounds_returns g hF.dec_edges hedges (fmod360 (ra2.getD k 0 + g.raOffset))
+        (dec2.getD k 0) ml ⟨hin.1, hin.2.le⟩ (fun d hd hv => (hR d hd hv).1)
+      have hcell := hcells i hi
+      obtain ⟨hbp, _, hpd, _⟩ := Sphere.get_bracket g _ _ (cellOf i).1 (cellOf i).2 hF.dec_edges hedges hcell
+      -- p's band is visited for q (dec cover), hence has room at the seam
+      have hvis : visitedBand g (dec2.getD k 0) ml (cellOf i).1 := by
+        obtain ⟨d0, hd0, hd0n, hmin, hmax, _, _⟩ := getbounds_inv g _ _ ml B hB
+        have := dec_cover_edges hF.dec_edges (dec2.getD k 0) (dec1.getD i 0) ml d0 (cellOf i).1 hd0n hbp ⟨hpd.1, hpd.2.1⟩ hdd
+        unfold visitedBand; rw [hd0]; exact this
+      have hmem := racover_pair g ra1 dec1 ms hF (ra1.getD i 0) (dec1.getD i 0) (ra2.getD k 0) (dec2.getD k 0) ml
+        (hra1 i hi).1 (hra1 i hi).2 (hra2 k hk).1 (hra2 k hk).2 (hdec1 i hi) (hdec2 k hk) hml
+        (cellOf i).1 (cellOf i).2 B hcell hB hclose (hR _ hbp hvis).2
+      unfold cellsOfPoint
+      simp only [scalar_zero]
+      rw [hB]
+      exact hmem
+
+/-- the room at the seam from the grid facts (`Sphere.bandRoom_holds`): on the grid of
+`chunks.__init__(ra1, dec1, ms)` with 4·ml ≤ ms, every second-list point that has a partner
+closer than ml has `BandRoom` in every band it visits - the RA margin is at most HALF a minimal
+cell minSize/cosDecMin, hence at most one cell of a band that embraces [0,360] and at most the
+gap any other band leaves around the seam: one wrap cell suffices, and the point lies inside
+the RA extent of every band it visits (`getbounds` does not drop it) -/
+theorem seam_room (g : Grid ℝ) (ra1 dec1 : Array ℝ) (ms ml : ℝ)
+    (hF : GridFacts ra1 dec1 ms g) (hR : GridRoom ra1 dec1 ms g) (hsz : ra1.size = dec1.size)
+    (hml : 0 < ml) (hms : 4 * ml ≤ ms)
+    (i : Nat) (hi : i < ra1.size) (h10 : 0 ≤ ra1.getD i 0) (h1 : ra1.getD i 0 < 360)
+    (hp : |dec1.getD i 0| < 90)
+    (a2 δq : ℝ) (h20 : 0 ≤ a2) (h2 : a2 < 360) (hq : |δq| < 90)
+    (hclose : gcircDeg (ra1.getD i 0) (dec1.getD i 0) a2 δq < ml)
+    (d : Nat) (hd : d < g.nDec) (hv : visitedBand g δq ml d) :
+    BandRoom g d (fmod360 (a2 + g.raOffset)) δq ml :=
+  bandRoom_holds g ra1 dec1 ms ml hF hR hsz hml hms i hi h10 h1 hp a2 δq h20 h2 hq hclose d hd hv
+
+/-- END-TO-END completeness of the model's `spherematch` at ℝ, hypotheses ONLY about the inputs
+(any argsort, any chunksize, any maxmatch): whenever it returns, with |Dec| < 90 in both lists,
+second-list RA in [0,360) (the first list's RA range and the sizes are guards of the model's
+constructor) and ml ≤ 180, the raw match list (before argsort / maxmatch) is a permutation of the
+list of ALL pairs whose separation is below ml, each with its separation.  `chunksize ≥
+4·matchlength` is enforced inside `spherematch`, `marginSize < minSize` by `assign`; the grid
+facts come from `init_shape`/`chunksInit_room`, the room at the seam from `seam_room`.
+Over ℝ `chunks.__init__` raises when a declination edge is clipped to ±90 (cos 90° = 0 exactly;
+the binary64 code relies on cos(π/2) = 6e-17 > 0), so polar-cap grids are outside this theorem. -/
+theorem spherematch_complete (inst : Inhabited ℝ) (argsort : List ℝ → List Nat)
+    (ra1 dec1 ra2 dec2 : Array ℝ) (ml : ℝ) (chunksize : Option ℝ) (maxmatch : Int) (res : Result ℝ)
+    (h : @spherematch ℝ (fieldTrig ℝ) inst argsort ra1 dec1 ra2 dec2 ml chunksize maxmatch = .ok res)
+    (hdec1 : ∀ i, i < dec1.size → |dec1.getD i 0| < 90)
+    (hra2 : ∀ k, k < ra2.size → 0 ≤ ra2.getD k 0 ∧ ra2.getD k 0 < 360)
+    (hdec2 : ∀ k, k < ra2.size → |dec2.getD k 0| < 90)
+    (hml : ml ≤ 180) :
+    res.raw.Perm (closePairs ra1.size ra2.size
+      (fun i k => gcircDeg (ra1.getD i 0) (dec1.getD i 0) (ra2.getD k 0) (dec2.getD k 0)) ml) := by
+  unfold spherematch at h
+  extract_lets four cs jp at h
+  have hcs : 4 * ml ≤ cs := by
+    simp only [cs, four, scalar_lit, scalar_sci]
+    push_cast
+    split
+    · split
+      · exact le_refl _
+      · rename_i hc; exact not_lt.1 hc
+    · split
+      · rename_i hc; exact hc.le
+      · exact le_refl _
+  simp -zeta only [bind, Except.bind] at h
+  split at h
+  · cases h
+  · simp only [jp] at h
+    obtain ⟨g, hg, h⟩ := bind_ok _ _ _ h
+    obtain ⟨cl, hcl, h⟩ := bind_ok _ _ _ h
+    obtain ⟨cells, hcells, h⟩ := bind_ok _ _ _ h
+    simp only [pure, Except.pure, Except.ok.injEq] at h
+    subst h
+    obtain ⟨_, hsz, hra1⟩ := chunksInit_guards ra1 dec1 cs g hg
+    have hF := chunksInit_facts ra1 dec1 cs g
+      (fun i hi => by have := abs_lt.1 (hdec1 i hi); exact ⟨this.1.le, this.2.le⟩) hg
+    have hR := chunksInit_room ra1 dec1 cs g hg
+    obtain ⟨hlen, hall⟩ := mapM_ok _ _ _ hcells
+    simp only [scalar_zero]
+    apply spherematch_complete_grid g ra1 dec1 ra2 dec2 cs ml cl _ hF hsz hcl _ hra1
+      (fun i hi => hdec1 i (by omega)) hra2 hdec2 hml
+    · intro k hk ⟨i, hi, hclose⟩ d hd hv
+      have hml0 : 0 < ml := lt_of_le_of_lt (gcirc_range _ _ _ _).1 hclose
+      exact seam_room g ra1 dec1 cs ml hF hR hsz hml0 hcs i hi (hra1 i hi).1 (hra1 i hi).2
+        (hdec1 i (by omega)) _ _ (hra2 k hk).1 (hra2 k hk).2 (hdec2 k hk) hclose d hd hv
+    · intro i hi
+      obtain ⟨r, hr1, hr2⟩ := hall i (by simpa using hi)
+      simp only [List.getElem_range, scalar_zero] at hr1
+      rw [hr1]
+      congr 1
+      simp [Array.getD_eq_getD_getElem?, hr2]
+
+/-- the output of `spherematch` in terms of its raw match list: `x[s]` for s = argsort of the
+distances, then the maxmatch bookkeeping when maxmatch > 0 (any scalar type) -/
+theorem spherematch_out_eq {α : Type} [Trig α] [Inhabited α] (argsort : List α → List Nat)
+    (ra1 dec1 ra2 dec2 : Array α) (ml : α) (chunksize : Option α) (maxmatch : Int) (res : Result α)
+    (h : spherematch argsort ra1 dec1 ra2 dec2 ml chunksize maxmatch = .ok res) :
+    res.out = if maxmatch > 0
+      then greedy maxmatch.toNat (applyPerm res.raw (argsort (res.raw.map fun p => p.2.2)))
+      else applyPerm res.raw (argsort (res.raw.map fun p => p.2.2)) := by
+  unfold spherematch at h
+  extract_lets four cs jp at h
+  simp -zeta only [bind, Except.bind] at h
+  split at h
+  · cases h
+  · simp only [jp] at h
+    obtain ⟨g, _, h⟩ := bind_ok _ _ _ h
+    obtain ⟨cl, _, h⟩ := bind_ok _ _ _ h
+    obtain ⟨cells, _, h⟩ := bind_ok _ _ _ h
+    simp only [pure, Except.pure, Except.ok.injEq] at h
+    subst h
+    rfl
+
+/-- THE STATEMENT OF C04 for the model's `spherematch` at ℝ, hypotheses only about the inputs and
+the argsort contract (it returns a permutation of the positions that sorts the distances).
+maxmatch ≤ 0: the output is a permutation of the list of ALL pairs closer than ml (each exactly
+once, with its separation: `matchRaw_complete_sound`), in non-decreasing order of separation.
+maxmatch = k > 0: the output is `greedy k sorted` for such a sorted permutation `sorted` of all
+close pairs, i.e. the distance-ordered greedy selection characterised by `greedy_spec`. -/
+theorem spherematch_statement (inst : Inhabited ℝ) (argsort : List ℝ → List Nat)
+    (ra1 dec1 ra2 dec2 : Array ℝ) (ml : ℝ) (chunksize : Option ℝ) (maxmatch : Int) (res : Result ℝ)
+    (h : @spherematch ℝ (fieldTrig ℝ) inst argsort ra1 dec1 ra2 dec2 ml chunksize maxmatch = .ok res)
+    (hdec1 : ∀ i, i < dec1.size → |dec1.getD i 0| < 90)
+    (hra2 : ∀ k, k < ra2.size → 0 ≤ ra2.getD k 0 ∧ ra2.getD k 0 < 360)
+    (hdec2 : ∀ k, k < ra2.size → |dec2.getD k 0| < 90)
+    (hml : ml ≤ 180)
+    (hargsort : ∀ l : List ℝ, (argsort l).Perm (List.range l.length) ∧
+      ((argsort l).map fun i => l.getD i default).Pairwise (· ≤ ·)) :
+    ∃ sorted : List (Pair ℝ),
+      sorted.Perm (closePairs ra1.size ra2.size
+        (fun i k => gcircDeg (ra1.getD i 0) (dec1.getD i 0) (ra2.getD k 0) (dec2.getD k 0)) ml) ∧
+      (sorted.map (·.2.2)).Pairwise (· ≤ ·) ∧
+      res.out = if maxmatch > 0 then greedy maxmatch.toNat sorted else sorted := by
+  have hraw := spherematch_complete inst argsort ra1 dec1 ra2 dec2 ml chunksize maxmatch res h hdec1 hra2 hdec2 hml
+  have hout := @spherematch_out_eq ℝ (fieldTrig ℝ) inst argsort ra1 dec1 ra2 dec2 ml chunksize maxmatch res h
+  obtain ⟨hs1, hs2⟩ := hargsort (res.raw.map fun p => p.2.2)
+  rw [List.length_map] at hs1
+  obtain ⟨hp, hsorted⟩ := @sorted_output ℝ inst _ res.raw _ hs1 hs2
+  exact ⟨_, hp.trans hraw, hsorted, hout⟩
+
+end complete
+
 /-! ## non-vacuity -/
 
 example : (closePairs 2 2 (fun i k => if i = k then (0 : Nat) else 5) 1) = [(0, 0, 0), (1, 1, 0)] := by decide
 example : (0 : ℝ) < @raMarginOf ℝ realTrig 1 0 1 :=
-  ra_cover_fixed 1 0 0 1 0 0 (by norm_num) (by rw [zero_mul, Real.cos_zero])
+  ra_cover_fixed_of_hav 1 0 0 1 0 0 (by norm_num) (by rw [zero_mul, Real.cos_zero])
     (by rw [zero_mul, Real.cos_zero]; exact one_pos) le_rfl (by norm_num) le_rfl (by norm_num) (by norm_num)
     (by rw [zero_mul, Real.cos_zero, one_mul, one_mul])
 example : greedy 1 [(0, 0, (1 : Nat)), (0, 1, 2), (1, 1, 3)] = [(0, 0, 1), (1, 1, 3)] := by decide
+
+section
+open Real
+attribute [local instance] realFns fieldScalar fieldTrig
+attribute [-instance] Scalar.instOfNat Scalar.instOfScientific
+
+/-- three cells of 120° around the circle are equally spaced edges -/
+theorem edges3 : EdgesOK (#[0, 120, 240, 360] : Array ℝ) 3 := by
+  refine ⟨by norm_num, rfl, by norm_num [Array.getD], ?_⟩
+  intro k hk
+  obtain rfl | rfl | rfl | rfl : k = 0 ∨ k = 1 ∨ k = 2 ∨ k = 3 := by omega
+  all_goals norm_num [Array.getD]
+
+/-- the hypotheses of `ra_cover_seam` are met by q = 350 (cell 2), p = 10 (cell 0), margin 100:
+the difference on the circle is 20 and the returned range contains an index that wraps onto 0 -/
+example : ∃ r : Int, raDown (#[0, 120, 240, 360] : Array ℝ) 350 100 2 ≤ r ∧
+    r ≤ ((raUp (#[0, 120, 240, 360] : Array ℝ) 350 100 2 (3 - 2) : Nat) : Int) ∧ (r % (3 : Int)).toNat = 0 := by
+  have h := ra_cover_seam edges3 350 10 100 2 0 (by norm_num) (by norm_num)
+    (by norm_num [Array.getD]) (by norm_num [Array.getD]) (by norm_num) (by norm_num) (by norm_num) (by norm_num)
+    (Or.inr (by rw [abs_of_nonneg (by norm_num)]; norm_num))
+    (Or.inl (by norm_num [Array.getD]))
+  exact_mod_cast h
+
+/-- the RA margin never exceeds 360, so a band that is one cell [0, 360] (a polar cap) always
+has room at the seam: `SeamOK` is satisfiable whatever the declinations are -/
+theorem raMarginOf_le_360 (c δq m : ℝ) : raMarginOf c δq m ≤ 360 := by
+  rw [raMarginOf_real', raMarginOf_real]
+  split
+  · have h := Real.arcsin_le_pi_div_two (sin (0.5 * m * (π / 180)) / sqrt (c * cos (δq * (π / 180))))
+    have hpi := Real.pi_pos
+    have hk : 0 < 180 / π := by positivity
+    have := mul_le_mul_of_nonneg_right h hk.le
+    have e : π / 2 * (180 / π) = 90 := by field_simp; norm_num
+    linarith
+  · exact le_refl _
+
+example (δq m : ℝ) :
+    SeamOK ({ minSize := 1, nDec := 1, decBounds := #[0, 1], raOffset := 0, raMin := 0, raMax := 0, raRange := 0,
+              nRa := #[1], raBounds := #[#[0, 360]] } : Grid ℝ) 0 δq m := by
+  left
+  refine ⟨by norm_num [Array.getD], by norm_num [Array.getD], ?_⟩
+  have := raMarginOf_le_360 (cosDecMinOf (#[0, 1] : Array ℝ) 0) δq m
+  norm_num [Array.getD] at this ⊢
+  exact this
+
+end
 
 end PydlVerif.C04
